@@ -41,6 +41,14 @@ var srsRD = ggpkg.SpatialReferenceSystem{Name: "Amersfoort / RD New", ID: 28992,
 	Definition: `PROJCS["Amersfoort / RD New",GEOGCS["Amersfoort",DATUM["Amersfoort",SPHEROID["Bessel 1841",6377397.155,299.1528128]]],PROJECTION["Oblique_Stereographic"]]`, Description: "Dutch national grid"}
 var srsETRS = ggpkg.SpatialReferenceSystem{Name: "ETRS89-extended / LAEA Europe", ID: 3035, Organization: "EPSG", OrganizationCoordsysID: 3035, Definition: `PROJCS["ETRS89-extended / LAEA Europe"]`, Description: ""}
 
+// rows whose srs_id differs from organization_coordsys_id: legal, written by tools that number their own definitions
+var srsLocalRD = ggpkg.SpatialReferenceSystem{Name: "RD New, locally numbered", ID: 100001, Organization: "EPSG", OrganizationCoordsysID: 28992, Definition: `PROJCS["Amersfoort / RD New"]`, Description: "local id"}
+var srsCustom = ggpkg.SpatialReferenceSystem{Name: "engineering grid", ID: 900913, Organization: "NONE", OrganizationCoordsysID: 1, Definition: `LOCAL_CS["engineering grid"]`, Description: ""}
+
+func srsRowString(r ggpkg.SpatialReferenceSystem) string {
+	return fmt.Sprintf("%s|%s|%d|%s|%s", r.Name, r.Organization, r.OrganizationCoordsysID, r.Definition, r.Description)
+}
+
 func geomTypeOf(s string) ggpkg.GeometryType {
 	switch s {
 	case "POLYGON":
@@ -81,7 +89,7 @@ func makeSource(path string, tables []TableSpec) error {
 		return err
 	}
 	defer h.Close()
-	if err := h.UpdateSRS(srsRD, srsETRS); err != nil {
+	if err := h.UpdateSRS(srsRD, srsETRS, srsLocalRD, srsCustom); err != nil {
 		return err
 	}
 	for i := range tables {
